@@ -882,6 +882,16 @@ func (ce *CEnv) evalCall(n *ast.CallExpr) (Val, error) {
 				out.C = append(out.C, UF("map."+typeKey(mt)+c.Path, c.Sort, m.C[0], kv.C[0]))
 			}
 			return out, nil
+		case "erris":
+			a, err := ce.eval(n.Args[0])
+			if err != nil {
+				return Val{}, err
+			}
+			b, err := ce.eval(n.Args[1])
+			if err != nil {
+				return Val{}, err
+			}
+			return bval(errIs(a, b)), nil
 		case "contains":
 			a, err := ce.eval(n.Args[0])
 			if err != nil {
